@@ -72,7 +72,41 @@ func main() {
 		})
 	}
 
-	n := run.N(21, 2000)
+	// ---- corpus: output-order layouts. Every kind whose save / rollback
+	// processor or indexer loops over the outputs (withdrawals V0/V1/V2 with 3
+	// hashes, deposit returns) with ordinary outputs first / between / last /
+	// around the special ones; two special transactions per block, in both
+	// orders; connected, disconnected, re-included, disconnected.
+	for _, kind := range []string{"withdraw1", "withdraw2", "retdep", "withdraw0"} {
+		kind := kind
+		history(run, st, sh, next(), rng.Fork(), func(h *ledgerh.H) {
+			f := h.F
+			total := f.Genesis.Transactions[0].Outputs()[0].Value
+			var outs []fixture.Out
+			for i := 0; i < 10; i++ {
+				outs = append(outs, fixture.Out{Key: i % 4, Value: 700000})
+			}
+			outs = append(outs, fixture.Out{Key: 0, Value: total - 7000000 - 100})
+			fan, _ := f.Transfer([]fixture.In{{Op: f.GenesisOut, Key: 0}}, outs, 920000)
+			b1 := h.BuildOn(h.GenesisBlk(), []interfaces.Transaction{fan}, "", fixture.BlockOpt{Miner: 1})
+			h.StoreSave(b1)
+			for _, lay := range []string{"first", "between", "last", "around"} {
+				h.Layout = lay
+				h.Note("corpus: %s with ordinary outputs %s", kind, lay)
+				txs := h.SpecialsOn(h.StoreTip(), []string{kind, kind}, 3)
+				b := h.BuildOn(h.StoreTip(), txs, "", fixture.BlockOpt{Miner: 2})
+				h.StoreSave(b)
+				h.StoreRollback()
+				b2 := h.BuildOn(h.StoreTip(), []interfaces.Transaction{txs[1], txs[0]}, "", fixture.BlockOpt{Miner: 3})
+				h.StoreSave(b2)
+				h.StoreRollback()
+			}
+			h.Layout = ""
+			h.StoreRollback()
+		})
+	}
+
+	n := run.N(19, 2000)
 	for i := 0; i < n; i++ {
 		steps := 6 + rng.Intn(10)
 		if run.Thorough() {
